@@ -1392,6 +1392,146 @@ Proof.
   end.
 Qed.
 
+(* ---- Utf16Format: the buffer grows by append; what was written is the whole buffer *)
+Lemma app_esc_split (l : list Z) : l ++ [92; 117; 48; 48; 48; 48] = (l ++ [92; 117]) ++ [48; 48; 48; 48].
+Proof. rewrite <- app_assoc. reflexivity. Qed.
+Lemma m_slice_app_tail (pre d : list Z) a b : a = Z.of_nat (length pre) -> b = a + Z.of_nat (length d) -> m_slice (pre ++ d) a b = Ret d.
+Proof.
+  intros -> ->. rewrite m_slice_in by (unfold zlen; rewrite ?app_length; lia). f_equal.
+  replace (Z.to_nat (Z.of_nat (length pre) + Z.of_nat (length d)) - Z.to_nat (Z.of_nat (length pre)))%nat with (length d) by lia.
+  rewrite Nat2Z.id, skipn_app, skipn_all, Nat.sub_diag. cbn [skipn app]. apply firstn_all.
+Qed.
+Lemma splice_app_tail (pre d x : list Z) a b : a = Z.of_nat (length pre) -> b = a + Z.of_nat (length d) -> splice (pre ++ d) a b x = pre ++ x.
+Proof.
+  intros -> ->. unfold splice. rewrite Nat2Z.id.
+  replace (Z.to_nat (Z.of_nat (length pre) + Z.of_nat (length d))) with (length (pre ++ d)) by (rewrite app_length; lia).
+  rewrite firstn_app, firstn_all, Nat.sub_diag, skipn_all. cbn [firstn]. rewrite !app_nil_r. reflexivity.
+Qed.
+Lemma m_copy_app_tail (pre d lit : list Z) a b : a = Z.of_nat (length pre) -> b = a + Z.of_nat (length d) -> length lit = length d ->
+  m_copy (pre ++ d) a b lit = Ret (pre ++ lit, Z.of_nat (length lit)).
+Proof.
+  intros -> -> Hl. rewrite m_copy_in by (unfold zlen; rewrite ?app_length; lia). rewrite Nat2Z.id.
+  replace (Z.to_nat (Z.of_nat (length pre) + Z.of_nat (length d))) with (length (pre ++ d)) by (rewrite app_length; lia).
+  rewrite firstn_app, firstn_all, Nat.sub_diag, skipn_all. cbn [firstn]. rewrite !app_nil_r.
+  rewrite skipn_app, skipn_all, Nat.sub_diag. cbn [skipn app].
+  rewrite firstn_all2 by (rewrite app_length; lia). rewrite gocopy_same by lia. rewrite Hl, Nat.min_id. reflexivity.
+Qed.
+Lemma m_make_cap_0 c : 0 <= c -> m_make_cap 0 c = Ret [].
+Proof. intros H. unfold m_make_cap. destruct (Z.ltb_spec c 0); [lia|]. reflexivity. Qed.
+
+Definition u16f_step (s out : list Z) : option (nat * list Z) :=
+  match s with
+  | [] => None
+  | bt :: t =>
+      if bt <? RuneSelf then
+        match append_uint 4 bt 16 with None => None | Some d => Some (1%nat, out ++ u_esc (to_upper d)) end
+      else
+        let (c, size) := Utf8.decode s in
+        if c =? Utf8.RuneError then Some (size, out ++ u_esc FFFD4)
+        else if ((0 <=? c) && (c <? 55296)) || ((57344 <=? c) && (c <? 65536)) then
+          match append_uint 4 c 16 with None => None | Some d => Some (size, out ++ u_esc (to_upper d)) end
+        else if (65536 <=? c) && (c <=? MaxRune) then
+          let (r1, r2) := utf16_encode c in
+          match append_uint 4 r1 16, append_uint 4 r2 16 with
+          | Some d1, Some d2 => Some (size, out ++ u_esc (to_upper d1) ++ u_esc (to_upper d2))
+          | _, _ => None
+          end
+        else Some (size, out ++ u_esc FFFD4)
+  end.
+Lemma utf16_go_step fu s out :
+  utf16_format_go (S fu) s out =
+  match s with [] => Some out | _ :: _ => match u16f_step s out with None => None | Some (size, out') => utf16_format_go fu (skipn size s) out' end end.
+Proof.
+  rewrite utf16_format_go_S. destruct s as [|bt t]; [reflexivity|]. unfold u16f_step.
+  destruct (bt <? RuneSelf).
+  - destruct (append_uint 4 bt 16); reflexivity.
+  - destruct (Utf8.decode (bt :: t)) as [c size]. cbv zeta. destruct (c =? Utf8.RuneError); [reflexivity|].
+    destruct ((0 <=? c) && (c <? 55296) || (57344 <=? c) && (c <? 65536)); [destruct (append_uint 4 c 16); reflexivity|].
+    destruct ((65536 <=? c) && (c <=? MaxRune)); [|reflexivity].
+    destruct (utf16_encode c) as [r1 r2]. destruct (append_uint 4 r1 16); [|reflexivity]. destruct (append_uint 4 r2 16); reflexivity.
+Qed.
+
+Ltac u16f_iter :=
+  repeat first
+    [ erewrite m_slice_app_tail by pad_side
+    | rewrite code_appendUint by (first [lia | (cbn [length]; lia)])
+    | erewrite splice_app_tail by pad_side
+    | rewrite code_toUpper by (first [eassumption | pad_side])
+    | erewrite m_copy_app_tail by pad_side
+    | rewrite app_esc_split
+    | progress step_code ].
+Ltac u16f_done := unfold u_esc, FFFD4; rewrite <- ?app_assoc; cbn [app]; repeat f_equal; first [reflexivity | pad_side].
+(* the model side decides the branch; then the code is opened and evaluated along it *)
+Ltac u16f_open s k Hl :=
+  eexists; iter_open; rewrite Hl; rewrite (m_get_nat s _ k) by lia; rewrite ?(m_slice_suffix s _ k) by lia;
+  unfold std_utf8_DecodeRune; rewrite ?app_esc_split.
+
+Ltac u16f_shape pk c b p K fuel :=
+  lazymatch goal with Hb : bytes ?s, Hm : utf16_format_go _ ?s [] = Some ?B |- _ = Ret ?B =>
+    let ST := constr:(fun (out : list Z) (f0 : Z) (k : nat) => pk out (Z.of_nat (length out)) f0 (Z.of_nat k)) in
+    let H1 := fresh "H1" in let H2 := fresh "H2" in
+    assert (H1 : forall k out f0 size out', (k < length s)%nat -> u16f_step (skipn k s) out = Some (size, out') ->
+       exists f1, iter1 c b p (ST out f0 k) = Ret (inl (ST out' f1 (k + size)%nat)));
+    [ let k := fresh "k" in let out := fresh "out" in let f0 := fresh "f0" in let size := fresh "size" in let out' := fresh "out'" in
+      let Hk := fresh "Hk" in let Hstep := fresh "Hstep" in
+      intros k out f0 size out' Hk Hstep; cbv beta;
+      assert (Hl : (Z.of_nat k <? zlen s) = true) by (apply Z.ltb_lt; unfold zlen; lia);
+      pose proof (nth_byte s k Hb Hk) as Hbt; pose proof (bytes_skipn s k Hb) as Hsb;
+      unfold u16f_step in Hstep; rewrite (skipn_cons_nth s k Hk) in Hstep; rewrite <- (skipn_cons_nth s k Hk) in Hstep;
+      unfold RuneSelf, MaxRune, Utf8.RuneError in Hstep;
+      destruct (nth k s 0 <? 128) eqn:Ea;
+      [ destruct (append_uint 4 (nth k s 0) 16) as [d|] eqn:Ed; [|discriminate Hstep]; injection Hstep as <- <-;
+        pose proof (append_uint_length _ _ _ _ Ed) as Hdl; assert (Hdb : bytes d) by (eapply append_uint_bytes; [|exact Ed]; lia);
+        u16f_open s k Hl; rewrite ?Ea;
+        u16f_iter; cbn [length]; rewrite ?Ed; cbn [lift]; u16f_iter; u16f_done
+      | destruct (Utf8.decode (skipn k s)) as [cc w] eqn:Edec;
+        assert (Hc : 0 <= cc < 4294967296) by
+          (destruct (decode_range _ _ _ Edec) as [H|(b0 & t0 & E & Hneg)]; [exact H|exfalso; rewrite (skipn_cons_nth s k Hk) in E; injection E as E _; lia]);
+        destruct (cc =? 65533) eqn:Ec;
+        [ injection Hstep as <- <-; u16f_open s k Hl; rewrite ?Ea, ?Edec; step_code; rewrite ?Ec; u16f_iter; u16f_done
+        | destruct ((0 <=? cc) && (cc <? 55296) || (57344 <=? cc) && (cc <? 65536)) eqn:Ebmp;
+          [ destruct (append_uint 4 cc 16) as [d|] eqn:Ed; [|discriminate Hstep]; injection Hstep as <- <-;
+            pose proof (append_uint_length _ _ _ _ Ed) as Hdl; assert (Hdb : bytes d) by (eapply append_uint_bytes; [|exact Ed]; lia);
+            u16f_open s k Hl; rewrite ?Ea, ?Edec; step_code; rewrite ?Ec, ?Ebmp;
+            rewrite (wrap_small 64 cc) by (change (2 ^ 64) with 18446744073709551616; lia);
+            u16f_iter; cbn [length]; rewrite ?Ed; cbn [lift]; u16f_iter; u16f_done
+          | destruct ((65536 <=? cc) && (cc <=? 1114111)) eqn:Esup;
+            [ assert (Hcc : 65536 <= cc <= 1114111) by (apply andb_true_iff in Esup; destruct Esup; zb; lia);
+              rewrite (utf16_encode_pair cc Hcc) in Hstep;
+              assert (Hhi : 0 <= hi_s cc < 65536) by (unfold hi_s; lia_dm);
+              assert (Hlo : 0 <= lo_s cc < 65536) by (unfold lo_s; lia_dm);
+              destruct (append_uint 4 (hi_s cc) 16) as [d1|] eqn:Ed1; [|discriminate Hstep];
+              destruct (append_uint 4 (lo_s cc) 16) as [d2|] eqn:Ed2; [|discriminate Hstep]; injection Hstep as <- <-;
+              pose proof (append_uint_length _ _ _ _ Ed1) as Hdl1; assert (Hdb1 : bytes d1) by (eapply append_uint_bytes; [|exact Ed1]; lia);
+              pose proof (append_uint_length _ _ _ _ Ed2) as Hdl2; assert (Hdb2 : bytes d2) by (eapply append_uint_bytes; [|exact Ed2]; lia);
+              u16f_open s k Hl; rewrite ?Ea, ?Edec; step_code; rewrite ?Ec, ?Ebmp, ?Esup;
+              change (std_utf16_EncodeRune cc) with (utf16_encode cc); rewrite (utf16_encode_pair cc Hcc); step_code;
+              rewrite !(wrap_small 64) by (change (2 ^ 64) with 18446744073709551616; lia);
+              u16f_iter; cbn [length]; rewrite ?Ed1; cbn [lift]; u16f_iter; cbn [length]; rewrite ?Ed2; cbn [lift]; u16f_iter;
+              u16f_done
+            | injection Hstep as <- <-; u16f_open s k Hl; rewrite ?Ea, ?Edec; step_code; rewrite ?Ec, ?Ebmp, ?Esup; u16f_iter; u16f_done ] ] ] ]
+    | ];
+    assert (H2 : forall k out f0, (length s <= k)%nat -> iter1 c b p (ST out f0 k) = Ret (inr (inl (ST out f0 k))));
+    [ intros; cbv beta; iter_open; unfold zlen; repeat break_if; zb; try reflexivity; exfalso; lia | ];
+    apply (bind_while_more c b p K (S (length s)) fuel); [|lia];
+    exact (rune_while ST c b p K s u16f_step utf16_format_go (fun out => out)
+             (fun _ _ => eq_refl) utf16_go_step H1 H2 (fun _ _ _ => eq_refl)
+             (S (length s)) 0%nat [] 0 B Hm)
+  end.
+
+(* Utf16Format: every byte string, every fuel above its length (and above 4: toUpper over the four digits) *)
+Theorem code_Utf16Format : forall fuel s, bytes s -> (length s < fuel)%nat -> (4 < fuel)%nat -> g_Utf16Format fuel s = lift (utf16_format s).
+Proof.
+  intros fuel s Hb Hf Hf4. unfold g_Utf16Format. set (K1 := g_appendUint). set (K2 := g_toUpper). repeat autounfold with go2v. subst K1 K2. step_code.
+  unfold std_utf8_RuneCount. rewrite m_make_cap_0 by lia. step_code.
+  pose proof (utf16_format_shape s Hb) as Hm. rewrite Hm. cbn [lift]. unfold utf16_format in Hm.
+  match goal with |- match while _ ?c ?b ?p ?s0 with Ret a => @?K a | Panic => Panic | NoFuel => NoFuel end = _ =>
+    change (bind (while fuel c b p s0) K = Ret (s_utf16_format s));
+    first [ solve [u16f_shape (fun (B : list Z) (j f i : Z) => (B, j, f, i)) c b p K fuel]
+          | solve [u16f_shape (fun (B : list Z) (j f i : Z) => (B, j, i)) c b p K fuel] ]
+  end.
+Qed.
+
 (* ================================================================== the case interpreter through the generated code *)
 Lemma all_bytes_bytes s : all_bytes s = true -> bytes s.
 Proof.
